@@ -305,12 +305,13 @@ def check_sub(facts, rep):
     pushes = {}
     for p in hp:
         for (fid, bb_, l), v in p.state.loop_entry.items():
-            if fid == 0 and strip(v)[0] != 'loopvar':
-                entry.setdefault(l, set()).add(dk(v))
+            if strip(v)[0] != 'loopvar':
+                entry.setdefault(l if fid == 0 else (fid, l), set()).add(dk(v))
         for e in p.calls():
-            if e.name.split('::')[-1] == 'push' and len(e.args) == 2 and e.args[0][0] == 'mref' and e.args[0][1][0][0] == 'local':
-                v = re.sub(r'_\d+', 'IT', dk(e.args[1])).replace('next(IT).Some.0', 'IT')
-                pushes.setdefault(e.args[0][1][0][1], set()).add(v)
+            if e.name.split('::')[-1] == 'push' and len(e.args) == 2 and e.args[0][0] == 'mref' and e.args[0][1][0][0] in ('local', 'flocal'):
+                v = re.sub(r'_(?:f\d+_)?\d+', 'IT', dk(e.args[1])).replace('next(IT).Some.0', 'IT')
+                root_ = e.args[0][1][0]
+                pushes.setdefault(root_[1] if root_[0] == 'local' else (root_[1], root_[2]), set()).add(v)
     for p in hp:
         if p.end != 'return':
             continue
@@ -324,18 +325,28 @@ def check_sub(facts, rep):
             for side, a in (('f', e.args[1]), ('b', e.args[2])):
                 t = strip(a)
                 if t[0] == 'call' and t[1].split('::')[-1] == 'from_entries' and len(t[2]) == 2:
-                    shape = dk(t[2][0])
+                    shape = dk(t[2][0]).replace('arg1.tgt_dim', 'tgt_dim(arg1)')       # the getter returns the field
                     src = strip(t[2][1])
                     ent = None
                     if src[0] == 'call' and src[1].split('::')[-1] == 'map' and len(src[2]) == 2:
                         rr = {dk(q.ret).replace("('item',)", 'IT') for q in apply_closure(src[2][1], [('item',)]) or [] if q.end == 'return'}
                         if len(rr) == 1:
                             ent = (dk(src[2][0]), next(iter(rr)))
-                    elif src[0] == 'loopvar' and isinstance(src[2], int) and len(pushes.get(src[2], ())) == 1:
+                    elif src[0] == 'loopvar' and isinstance(src[2], int) and isinstance(src[1], str) and src[1].startswith('f') and len(pushes.get((int(src[1][1:].split(':')[0]), src[2]), ())) == 1:
+                        # the same, inside a private helper executed in place
+                        src = ('loopvar', src[1], (int(src[1][1:].split(':')[0]), src[2]))
+                    if src[0] == 'loopvar' and (isinstance(src[2], int) or isinstance(src[2], tuple)) and len(pushes.get(src[2], ())) == 1 and ent is None:
                         # the entries collected by a loop: for (i, j) in indices.iter().enumerate() { v.push((i, j, 1)) }
                         its = [x for l_, vs in entry.items() for x in vs if x.startswith('into_iter(enumerate(')]
-                        if len(set(its)) == 1 and entry.get(src[2]) and all(x.startswith(('with_capacity(', 'new()')) for x in entry[src[2]]):
+                        rng = [x for l_, vs in entry.items() for x in vs if x == 'into_iter(Range::Range{start: 0, end: len(arg2)})']
+                        fresh = entry.get(src[2]) and all(x.startswith(('with_capacity(', 'new()')) for x in entry[src[2]])
+                        if len(set(its)) == 1 and not rng and fresh:
                             ent = (its[0][len('into_iter('):-1], next(iter(pushes[src[2]])))
+                        elif rng and not its and fresh:
+                            # for i in 0..indices.len() { let j = indices[i]; v.push((i, j, 1)) }: the same pairs (i, indices[i])
+                            v_ = next(iter(pushes[src[2]])).replace('index(arg2, IT)', 'IT.1').replace('arg2[IT]', 'IT.1')
+                            v_ = re.sub(r'\bIT\b(?!\.)', 'IT.0', v_)
+                            ent = ('enumerate(iter(arg2))', v_)
                     sel[side] = (shape, ent)
                 else:
                     sel[side] = (dk(t)[:80], None)
